@@ -388,3 +388,20 @@ func Harness_C01_table_biglog() {
 	}
 	VerifCover("done")
 }
+
+// Harness_C01_table_logwindow: a log block whose inflated payload ends exactly on a 32 KiB inflate-window boundary (where compress/flate reports EOF, and reads the stream trailer, one call later than for any other length).
+// bounds: BlockSize 40000 x Unaligned, one ref + one reflog entry whose message is L bytes, L sweeping 64 values so that the deflated part of the log block takes every size from 32738 to 32801 bytes; one message byte symbolic, the rest concrete filler (real deflate on both sides)
+// covers: done
+func Harness_C01_table_logwindow() {
+	cfg := Config{BlockSize: 40000, ExactLogMessage: true, Unaligned: VerifChoose(2) == 1}
+	L := 32660 + VerifIntRange(0, 63)
+	msg := make([]byte, L)
+	for i := range msg {
+		msg[i] = byte('a' + i%23)
+	}
+	refs := []*RefRecord{{RefName: "a", UpdateIndex: 1, Value: hashWith(20, 1, 1)}}
+	l := &LogRecord{RefName: "a", UpdateIndex: 1, Time: 5, New: hashWith(20, 1, 1), Old: hashWith(20, 2, 2), Name: "n", Email: "e", Message: string(msg)}
+	ok := tableRoundTrip(cfg, 1, 1, refs, []*LogRecord{l})
+	VerifAssert(ok, "writer-accepts")
+	VerifCover("done")
+}
